@@ -97,12 +97,22 @@ public:
     {
         size_type removedObjects = 0;
 
+        // A block that was allocated, but never committed, does
+        // not contain an object, because the object's constructor
+        // did not complete, so it must not be destroyed.
+        const bool  hasUncommittedBlock =
+            this->m_firstFreeBlock != this->m_nextFreeBlock;
+
+        const size_type     theObjectCount =
+            hasUncommittedBlock == true ? this->m_objectCount - 1 : this->m_objectCount;
+
         for (size_type i = 0;
                 i < this->m_blockSize &&
-                removedObjects < this->m_objectCount;
+                removedObjects < theObjectCount;
                     ++i)
         {
-            if ( isOccupiedBlock(&this->m_objectBlock[i]) )
+            if ( (hasUncommittedBlock == false || i != this->m_firstFreeBlock) &&
+                 isOccupiedBlock(&this->m_objectBlock[i]) )
             {
                 this->m_objectBlock[i].~ObjectType();
 
